@@ -195,7 +195,11 @@ def update_body(c):
         touch(c["first"])
     for s_ in c["steps"]:
         if "param" in s_:
-            p = dic[s_["param"]]
+            p = dic.get(s_["param"])
+            if p is None:
+                # the specification supplied this parameter, the built model dropped it (seed C05-11): the
+                # "supplied relative rate" clause cannot hold, and this is a verdict, not a harness error
+                return res.fail("supplied_parameter_not_built", {"param": s_["param"], "registered": sorted(k for k in dic if isinstance(k, str))[:12]})
             if s_["route"] == "assign":
                 p.tensor = torch.tensor([s_["value"]])
             else:
